@@ -5,7 +5,7 @@ import json
 import os
 
 rows = []
-for d in sorted(glob.glob("/verif/seeded/*/")):
+for d in sorted(glob.glob("/verif/seeded/C*/")):
     m = json.load(open(os.path.join(d, "meta.json")))
     rows.append((os.path.basename(d.rstrip("/")), m["property"], m["needs_to_manifest"], m["caught_by"]))
 print("| seed | property | needs in order to manifest | caught by |")
